@@ -73,7 +73,7 @@ DevGuess(cs, orc, on) ==
            IF "X02-KF3" \in on THEN NonFinite(cs) ELSE NoDec)
 
 (* ---- reading an event ------------------------------------------------------------------------ *)
-N(n) == Dec(n.cls, n.neg, n.digs, n.e)
+N(n) == [Dec(n.cls, n.neg, n.digs, n.e) EXCEPT !.bits = n.bits]
 TextOk(e) == Str(e.tc) = e.t
 GuessTextOk(e) == TextOk(e) /\ (IsDecimal(e.tc) => GenOkNumber(e.tc, N(e.n)))
 InPos(p) == p \in Pos
@@ -137,8 +137,10 @@ Adopt(want, e) ==
                       THEN (IF e.obs[p].c.present THEN Fresh ELSE Absent) ELSE want[p]]
 
 (* ---- the judgement: every getter of position p against the expected cell c ---------------------- *)
+(* a number that carries its bit pattern is compared by it, a decimal derived from a short text by its digits *)
 NumEq(o, d) == /\ o.cls = d.cls
-               /\ d.cls = "fin" => (o.neg = d.neg /\ o.digs = Str(d.digs) /\ o.e = d.e)
+               /\ d.cls = "fin" => IF d.bits # "" THEN o.bits = d.bits
+                                   ELSE (o.neg = d.neg /\ o.digs = Str(d.digs) /\ o.e = d.e)
                /\ d.cls = "inf" => o.neg = d.neg
 RawText(v) == IF v.k \in {"str", "bool", "err", "lazy"} THEN Str(v.t) ELSE ""
 Finite(c)  == c.v.k # "num" \/ c.v.n.cls = "fin"
